@@ -226,12 +226,51 @@ def parseConfig (toks : List String) (st : St) : St :=
 
 def showTask (t : Task) : String := s!"{t.origin}>{letterOfKind t.kind}>{t.dest}>{showOpt t.payload}"
 
+mutual
+/-- `compoRequested` / `compoRemains` in composite-index (pre-) order -/
+def compoMarks : Node → List (Option Nat × Bool)
+  | .leaf .. => []
+  | .compo _ _ _ _ _ _ _ q m s => (q, m) :: compoMarksIn s
+  | .ortho _ _ _ _ s => compoMarksIn s
+def compoMarksIn : Subs → List (Option Nat × Bool)
+  | .nil => []
+  | .cons _ n r => compoMarks n ++ compoMarksIn r
+end
+
+def subBits : Subs → List Bool
+  | .nil => []
+  | .cons b _ r => b :: subBits r
+
+mutual
+/-- request bits of every orthogonal region in orthogonal-index (pre-) order -/
+def orthoMarks : Node → List (List Bool)
+  | .leaf .. => []
+  | .compo _ _ _ _ _ _ _ _ _ s => orthoMarksIn s
+  | .ortho _ _ _ _ s => subBits s :: orthoMarksIn s
+def orthoMarksIn : Subs → List (List Bool)
+  | .nil => []
+  | .cons _ n r => orthoMarks n ++ orthoMarksIn r
+end
+
+def hex2 (n : Nat) : String := String.ofList [hexChar (n / 16), hexChar (n % 16)]
+
+/-- the bytes of one orthogonal region's units (`⌈width/8⌉` of them), least significant bit first -/
+partial def unitBytes (bits : List Bool) : String :=
+  if bits.isEmpty then "" else
+  let byte := (bits.take 8).zipIdx.foldl (fun acc (b, i) => if b then acc + 2 ^ i else acc) 0
+  hex2 byte ++ unitBytes (bits.drop 8)
+
 def snapText (st : St) (k : Nat) (m : Mach F) : String :=
   let n := m.w.cfg.stateCount
   let active := m.root.machineActive
   let base := s!"snap {k} A={toHex (maskOf n m.root.isActive)} R={toHex (maskOf n m.root.isResumable)} " ++
     s!"S={",".intercalate ((List.range n).map (fun i => showOpt (m.root.regionSubState i)))}"
-  let q := if active then " Q=" ++ showTransitions m.w.requests else " Q=?"
+  let cm := compoMarks m.root
+  let om := orthoMarks m.root
+  let q := " Q=" ++ showTransitions m.w.requests ++
+    " RQ=" ++ ",".intercalate (cm.map (fun x => showOpt x.1)) ++
+    " RM=" ++ toHex (maskOf cm.length (fun i => (cm.getD i (none, false)).2)) ++
+    " OB=" ++ (if om.isEmpty then "-" else String.join (om.map unitBytes))
   let hist := if m.w.cfg.history then
       " P=" ++ showTransitions m.w.previous ++ " L=" ++
       ",".intercalate ((List.range n).map (fun i =>
@@ -241,7 +280,8 @@ def snapText (st : St) (k : Nat) (m : Mach F) : String :=
     else ""
   let plans := if m.w.cfg.plans then
       " PL=" ++ "|".intercalate ((List.range m.w.cfg.regionCount).map (fun r =>
-        ";".intercalate ((m.w.planOf r).map showTask)))
+        ";".intercalate ((m.w.planOf r).map showTask))) ++
+      " PX=" ++ toHex m.w.planExists ++ " TS=" ++ toHex m.w.succ ++ " TF=" ++ toHex m.w.fail
     else ""
   let rep := if st.feat.structRep then
       " ST=" ++ toHex (maskOf n (fun i => m.structActive.getD i false)) ++
